@@ -39,11 +39,14 @@ IsInt(v)  == v.t = "int"
 Ok(v)     == [ok |-> 1, v |-> v]
 Err       == [ok |-> 0, v |-> VNone]
 May(v)    == [ok |-> 2, v |-> v]
+Unspec    == [ok |-> 3, v |-> [t |-> "none"]]   \* ill-formed request: outside every property's quantifier
 AllOk(rs) == \A k \in 1..Len(rs) : rs[k].ok = 1
 AnyErr(rs) == \E k \in 1..Len(rs) : rs[k].ok = 0
 Vals(rs)  == [k \in 1..Len(rs) |-> rs[k].v]
 \* combine element results: any definite error -> error; any "may refuse" -> may refuse
+AnyUnspec(rs) == \E k \in 1..Len(rs) : rs[k].ok = 3
 Lift(rs)  == IF AnyErr(rs) THEN Err
+             ELSE IF AnyUnspec(rs) THEN Unspec
              ELSE IF AllOk(rs) THEN Ok(VList(Vals(rs))) ELSE May(VList(Vals(rs)))
 Ints(s)   == VList([k \in 1..Len(s) |-> VInt(s[k])])
 
@@ -154,21 +157,25 @@ RangeIdx(n, a, b, s) ==
   IN [k \in 1..cnt |-> start + (k - 1) * s]
 
 IsPositional(it) == it.k \in {"at", "range", "arr", "missing", "jagged"}
-IsAdv(it) == it.k \in {"arr", "at"}
+IsArrLike(it) == it.k \in {"arr", "missing"}
+IsAdv(it) == it.k \in {"arr", "at", "missing"}
 RECURSIVE AdvPrefix(_)
 AdvPrefix(items) == IF items = <<>> \/ ~IsAdv(Head(items)) THEN <<>>
                     ELSE <<Head(items)>> \o AdvPrefix(Tail(items))
-HasArr(items) == \E k \in 1..Len(items) : items[k].k = "arr"
-BLen(block) == LET ls == {Len(block[k].is) : k \in {j \in 1..Len(block) : block[j].k = "arr"}}
+HasArr(items) == \E k \in 1..Len(items) : IsArrLike(items[k])
+HasAdv(items) == \E k \in 1..Len(items) : IsAdv(items[k])
+BLen(block) == LET ls == {Len(block[k].is) : k \in {j \in 1..Len(block) : IsArrLike(block[j])}}
                IN IF \E m \in ls : m # 1 THEN CHOOSE m \in ls : m # 1 ELSE 1
 Broadcastable(block) ==
-  \A k \in 1..Len(block) : block[k].k = "arr" => Len(block[k].is) \in {1, BLen(block)}
+  \A k \in 1..Len(block) : IsArrLike(block[k]) => Len(block[k].is) \in {1, BLen(block)}
 Pick(it, j) == IF it.k = "at" THEN it.i ELSE IF Len(it.is) = 1 THEN it.is[1] ELSE it.is[j]
 
 RECURSIVE VGet(_, _), VWalk(_, _, _)
-\* follow one chain of integer indexes (one element of the broadcast advanced block)
+\* follow one chain of integer indexes (one element of the broadcast advanced block);
+\* a None entry of an index array gives None
 VWalk(v, idxs, rest) ==
   IF idxs = <<>> THEN VGet(v, rest)
+  ELSE IF Head(idxs) = NoBound THEN Ok(VNone)
   ELSE IF IsNone(v) THEN Ok(VNone)
   ELSE IF ~IsList(v) THEN Err
   ELSE LET n == Len(v.xs)  i == IF Head(idxs) < 0 THEN Head(idxs) + n ELSE Head(idxs) IN
@@ -178,7 +185,7 @@ VGet(v, items) ==
   IF items = <<>> THEN Ok(v)
   ELSE LET h == Head(items)  t == Tail(items) IN
   IF h.k = "newaxis" THEN
-       LET r == VGet(v, t) IN IF r.ok = 0 THEN Err ELSE [ok |-> r.ok, v |-> VList(<<r.v>>)]
+       LET r == VGet(v, t) IN IF r.ok \in {0, 3} THEN r ELSE [ok |-> r.ok, v |-> VList(<<r.v>>)]
   ELSE IF h.k = "field" THEN
        \* a field name descends through lists and options to the records
        LET RECURSIVE proj(_)
@@ -202,16 +209,16 @@ VGet(v, items) ==
          ELSE LET idx == RangeIdx(n, h.a, h.b, h.s) IN
               Lift([k \in 1..Len(idx) |-> VGet(v.xs[idx[k] + 1], t)])
     [] h.k = "at" /\ ~HasArr(items) -> VWalk(v, <<h.i>>, t)
-    [] h.k \in {"at", "arr"} ->                     \* advanced block, NumPy pairing
+    [] h.k \in {"at", "arr", "missing"} ->          \* advanced block, NumPy pairing
          LET block == AdvPrefix(items)
              rest  == SubSeq(items, Len(block) + 1, Len(items)) IN
-         IF ~Broadcastable(block) THEN Err
+         IF (\E k \in 1..Len(block) : block[k].k = "missing") /\
+            Cardinality({Len(block[k].is) : k \in {j \in 1..Len(block) : IsArrLike(block[j])}}) > 1
+         THEN Unspec        \* an index array with missing values is not broadcast against others
+         ELSE IF ~Broadcastable(block) THEN Err
          ELSE LET r == Lift([j \in 1..BLen(block) |->
                               VWalk(v, [k \in 1..Len(block) |-> Pick(block[k], j)], rest)])
-              IN IF HasArr(rest) /\ r.ok # 0 THEN May(r.v) ELSE r
-    [] h.k = "missing" ->
-         Lift([j \in 1..Len(h.is) |->
-                 IF h.is[j] = NoBound THEN Ok(VNone) ELSE VWalk(v, <<h.is[j]>>, t)])
+              IN IF HasAdv(rest) /\ r.ok # 0 THEN May(r.v) ELSE r
     [] h.k = "jagged" ->
          IF Len(h.js) # n THEN Err
          ELSE Lift([i \in 1..n |->
@@ -220,8 +227,13 @@ VGet(v, items) ==
                                    IF h.js[i][j] = NoBound THEN Ok(VNone)
                                    ELSE VWalk(v.xs[i], <<h.js[i][j]>>, t)])])
 
-\* number of list levels the items consume / produce, for the type-level dimension check
-NPositional(items) == Cardinality({k \in 1..Len(items) : IsPositional(items[k])})
+\* number of list levels the items consume, for the ellipsis expansion (a jagged index
+\* consumes the list it is applied to and the lists its sub-indexes address)
+NPositional(items) ==
+  LET RECURSIVE cnt(_)
+      cnt(k) == IF k > Len(items) THEN 0
+                ELSE (IF items[k].k = "jagged" THEN 2 ELSE IF IsPositional(items[k]) THEN 1 ELSE 0) + cnt(k + 1)
+  IN cnt(1)
 
 \* Ellipsis expansion needs the depth: replaced by as many full ranges as make the
 \* remaining positional items address the innermost dimensions (Content::getitem_next(ellipsis)).
@@ -234,17 +246,48 @@ ExpandEllipsis(items, depth) ==
            nfill  == depth - NPositional(before) - NPositional(after)
        IN before \o [k \in 1..(IF nfill > 0 THEN nfill ELSE 0) |-> Range(NoBound, NoBound, 1)] \o after
 
+\* Errors that are decided by the TYPE alone, whatever the data (statement of C01: "decided by
+\* the type for regular dimensions"): too many dimensions, and an integer that is out of range
+\* for a regular dimension.  T is the type of the value the items are applied to.
+InReg(T, i) == T.k # "reg" \/ (i >= -T.n /\ i < T.n)
+RECURSIVE StaticOk(_, _)
+StaticOk(T, items) ==
+  IF items = <<>> THEN TRUE
+  ELSE LET h == Head(items)  t == Tail(items) IN
+  CASE h.k = "newaxis" -> StaticOk(T, t)
+    [] h.k = "field" -> TRUE                       \* field projections are checked by the value walk
+    [] T.k = "opt" -> StaticOk(T.x, items)
+    [] T.k = "union" -> TRUE
+    [] T.k = "rec" -> \A j \in 1..Len(T.xs) : StaticOk(T.xs[j], items)
+    [] T.k \in {"var", "reg"} ->
+         (CASE h.k = "at" -> InReg(T, h.i) /\ StaticOk(T.x, t)
+            [] h.k = "range" -> StaticOk(T.x, t)
+            [] h.k = "arr" -> (\A j \in 1..Len(h.is) : InReg(T, h.is[j])) /\ StaticOk(T.x, t)
+            [] h.k = "missing" -> (\A j \in 1..Len(h.is) : h.is[j] = NoBound \/ InReg(T, h.is[j])) /\ StaticOk(T.x, t)
+            [] h.k = "jagged" ->
+                 LET U == IF T.x.k = "opt" THEN T.x.x ELSE T.x IN
+                 U.k \in {"var", "reg"} /\ StaticOk(U.x, t)
+            [] OTHER -> TRUE)
+    [] OTHER -> FALSE                              \* a leaf: too many dimensions in slice
+
+\* combinations the library documents (or is observed) to refuse: either outcome conforms
+MayRefuse(items) ==
+  \/ \E i, j, k \in 1..Len(items) : i < j /\ j < k /\ IsAdv(items[i]) /\ ~IsAdv(items[j]) /\ IsAdv(items[k])
+                                     /\ HasArr(items)
+  \/ \E k \in 1..Len(items) : items[k].k = "missing" /\ \E j \in 1..Len(items) : j # k /\ IsAdv(items[j])
+
 \* The whole of Content::getitem for an array whose element type is T and value v.
-\* Type-level refusals first (they do not depend on the data), then the value walk.
+\* Index well-formedness and type-level refusals first (they do not depend on the data),
+\* then the value walk.
 VGetItem(v, T, items) ==
   LET nell == Cardinality({k \in 1..Len(items) : items[k].k = "ellipsis"}) IN
-  IF nell > 1 THEN Err
+  IF \E k \in 1..Len(items) : items[k].k = "range" /\ items[k].s = 0 THEN Err
+  ELSE IF nell > 1 THEN Unspec              \* not a well-formed index
   ELSE IF nell = 1 /\ MinDepthE(T) # MaxDepthE(T) THEN Err
   ELSE LET its == ExpandEllipsis(items, MinDepthE(T)) IN
-       IF NPositional(its) > MaxDepthE(T) THEN Err
-       ELSE IF NPositional(its) > MinDepthE(T) THEN
-              (LET r == VGet(v, its) IN IF r.ok = 0 THEN Err ELSE May(r.v))
-       ELSE VGet(v, its)
+       IF ~StaticOk(TVar(T), its) THEN Err
+       ELSE LET r == VGet(v, its) IN
+            IF r.ok = 1 /\ (MayRefuse(its) \/ MayRefuse(items)) THEN May(r.v) ELSE r
 
 \* ---------------------------------------------------------------- per-list operations at an axis (C05, C07, C09)
 \* o is an operation descriptor: [n |-> "num"], [n |-> "localindex"],
